@@ -29,7 +29,7 @@ func eskip(fs []fault) {
 				res.NotExhaustive("E-skip: time budget")
 				return
 			}
-			c := cfg{"olla", "auto", "priority", sse, 3, false}
+			c := cfg{"olla", "auto", "priority", sse, 3, false, false}
 			var bes []*stack.Backend
 			var eps []stack.EP
 			for i := 0; i < 3; i++ {
